@@ -50,7 +50,16 @@ def main():
     verif = os.path.join(mut, "verif")
     os.makedirs(mut, exist_ok=True)
     meta = {"property": args.pid, "patch": os.path.basename(patch), "demo": os.path.basename(demo),
-            "checked_at": time.strftime("%Y-%m-%d %H:%M:%S"), "checks": {}}
+            "checked_at": time.strftime("%Y-%m-%d %H:%M:%S"), "checks": {}, "history": []}
+    if os.path.exists(patch + ".meta.json"):
+        with open(patch + ".meta.json") as f:
+            old = json.load(f)
+        for k in ("a_suite_with_change", "b_demo_with_change", "c_demo_without_change", "applies"):
+            if k in old:
+                meta[k] = old[k]
+        meta["history"] = old.get("history", []) + [
+            {"checked_at": old.get("checked_at"),
+             "checks": {c: {"rc": e["rc"], "violation_lines": e["violation_lines"]} for c, e in old.get("checks", {}).items()}}]
     try:
         rc, out = sh(["git", "-C", "/repo", "worktree", "add", "--detach", repo, "HEAD"])
         if rc != 0:
@@ -121,7 +130,7 @@ def main():
             print("%s against %s: rc=%d %s" % (c, os.path.basename(patch), rc, vio[:1]))
         with open(patch + ".meta.json", "w") as f:
             json.dump(meta, f, indent=1)
-        ok_abc = args.skip_abc or (meta["a_suite_with_change"]["rc"] == 0 and meta["b_demo_with_change"]["rc"] != 0
+        ok_abc = ("a_suite_with_change" in meta) and (meta["a_suite_with_change"]["rc"] == 0 and meta["b_demo_with_change"]["rc"] != 0
                                    and meta["c_demo_without_change"]["rc"] == 0)
         print("confirmed (a)(b)(c):", ok_abc)
         return 0
